@@ -40,10 +40,22 @@ func newSyntaxError(err SyntaxError) *Node {
 
 func (self *Parser) syntaxError(err types.ParsingError) SyntaxError {
 	return SyntaxError{
-		Pos:  self.p,
+		Pos:  self.errorPos(),
 		Src:  self.s,
 		Code: err,
 	}
+}
+
+// errorPos is the parser position kept inside the source: the scanners look
+// ahead and stop behind the end of truncated input.
+func (self *Parser) errorPos() int {
+	if self.p > len(self.s) {
+		return len(self.s)
+	}
+	if self.p < 0 {
+		return 0
+	}
+	return self.p
 }
 
 func unwrapError(err error) *Node {
